@@ -393,6 +393,9 @@ pub struct BytesCase {
 	pub ch: Choices,
 	/// replace long/double constants by int/float ones (keeps the case outside the open finding)
 	pub strip_wide: bool,
+	/// an attribute payload around / beyond 64 KiB (gen::add_big_attribute); 0 = none
+	#[serde(default)]
+	pub big: u32,
 }
 
 fn strip_wide_consts(c: &mut CClass) {
@@ -482,6 +485,9 @@ pub fn bytes_roundtrip(bytes: &[u8], obs: &mut Obs) -> PropResult {
 
 fn wellformed(case: &BytesCase, obs: &mut Obs) -> PropResult {
 	let mut model = class_from_stream(&case.stream, 4, 30);
+	if let Some(size) = crate::classfile::gen::add_big_attribute(&mut model, case.big) {
+		obs.label(if size > 65535 { "attribute_payload>65535" } else { "attribute_payload<=65535" });
+	}
 	let mut ch = case.ch.clone();
 	if case.strip_wide {
 		strip_wide_consts(&mut model);
@@ -825,6 +831,9 @@ fn truncate(s: &str) -> String {
 /// (c) well-formed raw values (obtained by reading encoder output, then written again) are cross-read
 fn cross_read(case: &BytesCase, obs: &mut Obs) -> PropResult {
 	let mut model = class_from_stream(&case.stream, 4, 30);
+	if let Some(size) = crate::classfile::gen::add_big_attribute(&mut model, case.big) {
+		obs.label(if size > 65535 { "attribute_payload>65535" } else { "attribute_payload<=65535" });
+	}
 	let mut ch = case.ch.clone();
 	if case.strip_wide {
 		strip_wide_consts(&mut model);
@@ -890,7 +899,7 @@ pub fn run(ctx: &mut Ctx) {
 	ctx.rule = "(a) well-formed class files from the harness encoder (all encodings; with and without long/double constants): write(read(b)) == b byte for byte, length() == |b|; (b) raw ClassFile values generated directly (self-consistent attribute names, otherwise arbitrary indices/counts, every attribute kind the crate models, nested attributes in Code and Record): |to_bytes()| == length(), an independent JVMS layout walker must consume every attribute exactly per its attribute_length (count widths per JVMS), read(write(v)) == v; (c) files re-written by raw_class_file are cross-read by the strict decoder (== the generating model) and duke. Non-trivial = class with code / value with >= 3 distinct attribute kinds; distinct by case hash".into();
 	ctx.assume("raw stack map frames use the ranges their variants can express (SameFrame offset <= 63, Chop k in 1..=3, Append 1..=3 locals)");
 	ctx.assume("attribute_name_index of a raw attribute points at the Utf8 entry with the matching name (the crate dispatches on it); unknown attributes use a name the crate does not model");
-	let bytes_strategy = || (class_stream(), choices(), prop_oneof![3 => Just(true), 1 => Just(false)]).prop_map(|(stream, ch, strip_wide)| BytesCase { stream, ch, strip_wide });
+	let bytes_strategy = || (class_stream(), choices(), prop_oneof![3 => Just(true), 1 => Just(false)], crate::classfile::gen::big_choice()).prop_map(|(stream, ch, strip_wide, big)| BytesCase { stream, ch, strip_wide, big });
 	ctx.run_sub("bytes_roundtrip", ctx.tier.pick(32000, 1600000), bytes_strategy, wellformed);
 	ctx.run_sub("raw_value_roundtrip", ctx.tier.pick(48000, 2400000), || (proptest::collection::vec(any::<u8>(), 0..600), prop_oneof![3 => Just(false), 1 => Just(true)]).prop_map(|(stream, wide)| RawCase { stream, wide }), raw_value);
 	ctx.run_sub("cross_read", ctx.tier.pick(16000, 800000), bytes_strategy, cross_read);
